@@ -66,7 +66,15 @@ func c17One(c *core.Ctx, cs srcCase) {
 	c.NontrivialH(core.Hash(cs.Ver + string(cs.Src)))
 	fp0 := astx.StructFP(res.Root)
 	ref := drive.Parse(cs.Src, v, true) // unformatted twin for blaming
+	fam := famOf(v)
 	mixed := ""
+	if c17Heredoc(ref.Root) && (v.Major == 5 || v.Minor < 3) {
+		// the formatter writes `EOT` directly followed by the next token, which PHP < 7.3 does not accept
+		// unless that token is `;`; on 7.3+ the pinned empty-heredoc scanner defect is met instead
+		mixed = "[program with a heredoc, PHP < 7.3]"
+	} else if c17Heredoc(ref.Root) {
+		mixed = "[program with a heredoc, PHP >= 7.3]"
+	}
 	if c17Mixed(ref.Root) {
 		mixed = "[program that leaves PHP mode: inline HTML, close tag, halt-compiler tail or shebang]"
 		c.Stat("programs_leaving_php_mode", 1)
@@ -87,7 +95,7 @@ func c17One(c *core.Ctx, cs srcCase) {
 		if mixed != "" {
 			blame = mixed
 		}
-		c.Report("formatted text does not parse: "+blame, mkWhat("%q => %q: %s", cs.Src, out, errList(r2.Errs)), cs)
+		c.Report("formatted text does not parse ("+fam+"): "+blame, mkWhat("%q => %q: %s", cs.Src, out, errList(r2.Errs)), cs)
 		return
 	}
 	if astx.StructFP(r2.Root) != fp0 {
@@ -95,7 +103,7 @@ func c17One(c *core.Ctx, cs srcCase) {
 		if mixed != "" {
 			blame = mixed
 		}
-		c.Report("formatted text parses to a different structure: "+blame, mkWhat("%q => %q", cs.Src, out), cs)
+		c.Report("formatted text parses to a different structure ("+fam+"): "+blame, mkWhat("%q => %q", cs.Src, out), cs)
 		return
 	}
 	out2, pan2, loc2 := formatPrint(r2.Root)
@@ -107,7 +115,7 @@ func c17One(c *core.Ctx, cs srcCase) {
 		c.Report("formatting is not idempotent: "+c17DiffLocus(r2.Root, out, out2), mkWhat("%q => %q => %q", cs.Src, out, out2), cs)
 	}
 	// canonical: every other layout of the same program formats to the same text
-	if len(cs.Base) > 0 {
+	if len(cs.Base) > 0 && !strings.Contains(string(cs.Src), "__halt_compiler") { // what follows __halt_compiler is data, not layout
 		rb := drive.Parse(cs.Base, v, true)
 		if rb.Clean() && astx.StructFP(rb.Root) == fp0 {
 			outB, panB, _ := formatPrint(rb.Root)
@@ -133,6 +141,15 @@ func c17Mixed(root ast.Vertex) bool {
 	}
 	for _, tr := range astx.Tokens(root) {
 		if bytes.HasSuffix(tr.Tok.Value, []byte("?>")) || bytes.HasPrefix(tr.Tok.Value, []byte("#!")) || bytes.HasPrefix(tr.Tok.Value, []byte("<?=")) {
+			return true
+		}
+	}
+	return false
+}
+
+func c17Heredoc(root ast.Vertex) bool {
+	for _, n := range astx.PreOrder(root) {
+		if astx.KindName(n) == "ScalarHeredoc" {
 			return true
 		}
 	}
@@ -218,6 +235,14 @@ func c17Run(c *core.Ctx) {
 				c.Sample(cs)
 			}
 		}
+	}
+	for _, fam := range []string{"php7", "php5"} {
+		f := corpus.MustFam(fam)
+		wideItems(f, true, func(it *corpus.Item, src, why string) {
+			if c.Next() {
+				c17One(c, mkCase(src, f.V, why))
+			}
+		})
 	}
 	for _, src := range corpus.Specials() {
 		if !c.Next() {
